@@ -28,6 +28,9 @@
 EXTENDS Integers, Sequences, FiniteSets, TLC
 
 CONSTANTS Inst,          \* validator instances, e.g. {"v1","v2"}
+          Slots,         \* validations that can be in progress at once: "v1" = first slot of instance v1, "v1b" = a second
+                         \* validation on v1 started while the first is still fetching (likewise "v2b")
+          SameApp,       \* TRUE: all instances are built on ONE application (one face, one table of pending Interests)
           MaxVal,        \* number of Validate calls in a behaviour
           MaxHeal,       \* number of Heal steps (a certificate that could not be fetched becomes retrievable)
           Allowed, Forced,
@@ -39,15 +42,18 @@ AllDevs == {"SharedCache", "LoopRefetch", "Ed25519Unsupported"}
 VARIABLES W,        \* the world
           inst,     \* instance -> [k: "none"|"ok"|"refused", anchor]
           cache,    \* instance -> set of certificate names whose key is cached
-          val,      \* instance -> validation in progress [k |-> "none"] or
+          val,      \* slot -> validation in progress [k |-> "none"] or
                     \*   [k |-> "run", p, stack (sequence of names, last = element being resolved), pc, vk]
-          wire,     \* instance -> sequence of certificate names requested with Interests
+          wire,     \* application -> sequence of certificate names requested with Interests on its face
           out,      \* sequence of finished validations [v, p, r: "T"|"F"|"diverged", c: Chain(anchor, p), evaluated once]
           nval,
           dev, nodev, bad
 vars == <<W, inst, cache, val, wire, out, nval, dev, nodev, bad>>
 
 NoVal == [k |-> "none"]
+I(s) == IF s = "v1b" THEN "v1" ELSE IF s = "v2b" THEN "v2" ELSE s      \* instance of a slot
+AppOf(v) == IF SameApp THEN "app" ELSE v                                \* application an instance is built on
+Apps == {AppOf(v) : v \in Inst}
 Top(s) == s[Len(s)]
 IsPkt(n) == n \in DOMAIN W.pkts
 El(n) == IF IsPkt(n) THEN [kl |-> W.pkts[n].kl, sig |-> W.pkts[n].sig]
@@ -109,13 +115,13 @@ InitWith(w) ==
   /\ W = w
   /\ inst = [v \in Inst |-> [k |-> "none", anchor |-> "none", good |-> FALSE]]
   /\ cache = [v \in Inst |-> {}]
-  /\ val = [v \in Inst |-> NoVal]
-  /\ wire = [v \in Inst |-> <<>>]
+  /\ val = [s \in Slots |-> NoVal]
+  /\ wire = [a \in Apps |-> <<>>]
   /\ out = <<>> /\ nval = 0 /\ dev = {} /\ nodev = {} /\ bad = {}
 Init == \E w \in WorldSet : InitWith(w)
 
 Busy(v) == val[v].k = "run" /\ val[v].pc \notin {"fetching", "diverged"}
-Quiescent == \A v \in Inst : ~Busy(v)
+Quiescent == \A v \in Slots : ~Busy(v)
 
 (* external stimuli *)
 \* lvs_validator(checker, app, anchor): built, or refused with ValueError
@@ -129,29 +135,33 @@ NewValidator(v, a) ==
   /\ UNCHANGED <<W, cache, val, wire, out, nval>>
   /\ Track
 
-\* await validator(name, sig_ptrs) of packet p on instance v (one at a time per instance)
+\* validator(name, sig_ptrs) of packet p started on slot v of its instance; the second slot of an instance
+\* is used only while the first is busy (a validation started while another one of the same instance is fetching)
 Validate(v, p) ==
-  /\ Quiescent /\ inst[v].k = "ok" /\ val[v] = NoVal /\ nval < MaxVal /\ p \in DOMAIN W.pkts
+  /\ Quiescent /\ inst[I(v)].k = "ok" /\ val[v] = NoVal /\ nval < MaxVal /\ p \in DOMAIN W.pkts
+  /\ (v # I(v) => val[I(v)] # NoVal)
   /\ val' = [val EXCEPT ![v] = [k |-> "run", p |-> p, stack |-> <<p>>, pc |-> "check", vk |-> "none"]]
   /\ nval' = nval + 1
   /\ UNCHANGED <<W, inst, cache, wire, out, dev, nodev>>
   /\ Track
 
-\* the network answers the certificate Interest of instance v as the world says. No answer = the Interest
-\* lifetime passes; it passes for every instance that is waiting, so that step is taken only when the
-\* world gives none of them an answer, and ends all their fetches (bound of the model).
-Waiting == {u \in Inst : val[u].k = "run" /\ val[u].pc = "fetching"}
+\* the network answers the certificate Interests for name n pending on application a as the world says. One Data
+\* (or Nack) satisfies every pending Interest of that name on that application (its table of pending Interests is
+\* keyed by name). No answer = the Interest lifetime passes; it passes for every validation that is waiting, so that
+\* step is taken only when the world gives none of them an answer, and ends all their fetches (bound of the model).
+Waiting == {u \in Slots : val[u].k = "run" /\ val[u].pc = "fetching"}
 Wanted(u) == El(Top(val[u].stack)).kl
-FetchReply(v, kind) ==
-  /\ Quiescent /\ v \in Waiting
-  /\ kind = Serv(Wanted(v))
-  /\ \/ /\ kind = "yes"
-        /\ val' = [val EXCEPT ![v].stack = Append(@, Wanted(v)), ![v].pc = "check"]      \* the fetched certificate is validated
-     \/ /\ kind = "nack"
-        /\ val' = [val EXCEPT ![v].pc = "reject"]
-     \/ /\ kind \in {"timeout", "absent"}
-        /\ \A u \in Waiting : Serv(Wanted(u)) \in {"timeout", "absent"}
-        /\ val' = [u \in Inst |-> IF u \in Waiting THEN [val[u] EXCEPT !.pc = "reject"] ELSE val[u]]
+FetchReply(a, n, kind) ==
+  /\ Quiescent
+  /\ LET hit == {u \in Waiting : AppOf(I(u)) = a /\ Wanted(u) = n} IN
+       /\ hit # {} /\ kind = Serv(n)
+       /\ \/ /\ kind = "yes"        \* the fetched certificate is validated
+             /\ val' = [u \in Slots |-> IF u \in hit THEN [val[u] EXCEPT !.stack = Append(@, n), !.pc = "check"] ELSE val[u]]
+          \/ /\ kind = "nack"
+             /\ val' = [u \in Slots |-> IF u \in hit THEN [val[u] EXCEPT !.pc = "reject"] ELSE val[u]]
+          \/ /\ kind \in {"timeout", "absent"}
+             /\ \A u \in Waiting : Serv(Wanted(u)) \in {"timeout", "absent"}
+             /\ val' = [u \in Slots |-> IF u \in Waiting THEN [val[u] EXCEPT !.pc = "reject"] ELSE val[u]]
   /\ UNCHANGED <<W, inst, cache, wire, out, nval, dev, nodev>>
   /\ Track
 
@@ -159,7 +169,7 @@ FetchReply(v, kind) ==
 \* is published. Earlier failures must leave no trace: later verdicts are those of the new world.
 \* (bound: only while no validation is in progress)
 Heal(n) ==
-  /\ Quiescent /\ \A v \in Inst : val[v] = NoVal
+  /\ Quiescent /\ \A v \in Slots : val[v] = NoVal
   /\ W.epoch < MaxHeal
   /\ n \in DOMAIN W.certs /\ W.certs[n].kl # n /\ W.certs[n].serv \in {"nack", "timeout", "absent"}
   /\ W' = [W EXCEPT !.certs[n].serv = "yes", !.epoch = @ + 1]
@@ -178,8 +188,8 @@ CheckSchema(v) ==
 
 UseAnchor(v) ==
   /\ val[v].k = "run" /\ val[v].pc = "key"
-  /\ El(Top(val[v].stack)).kl = inst[v].anchor
-  /\ val' = [val EXCEPT ![v].pc = "verify", ![v].vk = W.certs[inst[v].anchor].key]
+  /\ El(Top(val[v].stack)).kl = inst[I(v)].anchor
+  /\ val' = [val EXCEPT ![v].pc = "verify", ![v].vk = W.certs[inst[I(v)].anchor].key]
   /\ UNCHANGED <<W, inst, cache, wire, out, nval, dev, nodev>>
   /\ Track
 
@@ -187,9 +197,9 @@ Others(v) == UNION {cache[u] : u \in Inst \ {v}}
 UseCache(v) ==
   /\ val[v].k = "run" /\ val[v].pc = "key"
   /\ LET n == El(Top(val[v].stack)).kl
-         app == n \notin cache[v] /\ n \in Others(v) IN
-       /\ n # inst[v].anchor
-       /\ \/ /\ n \in cache[v] /\ UNCHANGED <<dev, nodev>>
+         app == n \notin cache[I(v)] /\ n \in Others(I(v)) IN
+       /\ n # inst[I(v)].anchor
+       /\ \/ /\ n \in cache[I(v)] /\ UNCHANGED <<dev, nodev>>
           \/ \* DEVIATION: the key storage is one object shared by all instances (default argument)
              Dev("SharedCache", app)
        /\ val' = [val EXCEPT ![v].pc = "verify", ![v].vk = W.certs[n].key]
@@ -202,12 +212,12 @@ Fetch(v) ==
   /\ LET st == val[v].stack
          n == El(Top(st)).kl
          onStack == \E j \in 2..Len(st) : st[j] = n        \* already being resolved in this validation: a loop
-         shared == n \notin cache[v] /\ n \in Others(v)
+         shared == n \notin cache[I(v)] /\ n \in Others(I(v))
          nd0 == IF shared /\ "SharedCache" \in Allowed THEN nodev \cup {"SharedCache"} ELSE nodev IN
-       /\ n # inst[v].anchor /\ n \notin cache[v]
+       /\ n # inst[I(v)].anchor /\ n \notin cache[I(v)]
        /\ ~(shared /\ ("SharedCache" \in dev \/ "SharedCache" \in Forced))   \* with a shared storage the code takes UseCache
        /\ \/ /\ ~onStack
-             /\ wire' = [wire EXCEPT ![v] = Append(@, n)]
+             /\ wire' = [wire EXCEPT ![AppOf(I(v))] = Append(@, n)]
              /\ val' = [val EXCEPT ![v].pc = "fetching"]
              /\ dev' = dev /\ nodev' = nd0 /\ UNCHANGED out
           \/ \* correct design: a certificate that (transitively) names itself is rejected
@@ -218,9 +228,9 @@ Fetch(v) ==
           \/ \* DEVIATION: the loop is followed again and again (until the caller gives up); recorded as
              \* "diverged", the instance is not used any more
              /\ onStack /\ "LoopRefetch" \in (Allowed \cup Forced) /\ "LoopRefetch" \notin nodev
-             /\ wire' = [wire EXCEPT ![v] = Append(@, n)]
+             /\ wire' = [wire EXCEPT ![AppOf(I(v))] = Append(@, n)]
              /\ val' = [val EXCEPT ![v].pc = "diverged"]
-             /\ out' = Append(out, [v |-> v, p |-> val[v].p, r |-> "diverged", c |-> Chain(inst[v].anchor, val[v].p), e |-> W.epoch])
+             /\ out' = Append(out, [v |-> I(v), p |-> val[v].p, r |-> "diverged", c |-> Chain(inst[I(v)].anchor, val[v].p), e |-> W.epoch])
              /\ dev' = dev \cup {"LoopRefetch"} /\ nodev' = nd0
   /\ UNCHANGED <<W, inst, cache, nval>>
   /\ Track
@@ -237,7 +247,7 @@ VerifySig(v) ==
                 /\ val' = [val EXCEPT ![v].pc = "accept"] /\ UNCHANGED cache
              \/ \* a fetched certificate is valid: cache its key, resume the element it certifies
                 /\ good /\ Len(st) > 1
-                /\ cache' = [cache EXCEPT ![v] = @ \cup {x}]
+                /\ cache' = [cache EXCEPT ![I(v)] = @ \cup {x}]
                 /\ val' = [val EXCEPT ![v].stack = SubSeq(st, 1, Len(st) - 1), ![v].vk = W.certs[x].key]
        \/ \* DEVIATION: Ed25519 signatures are never accepted
           /\ Dev("Ed25519Unsupported", good /\ KeyTypeEd)
@@ -247,34 +257,35 @@ VerifySig(v) ==
 
 Verdict(v) ==
   /\ val[v].k = "run" /\ val[v].pc \in {"accept", "reject"}
-  /\ out' = Append(out, [v |-> v, p |-> val[v].p, r |-> IF val[v].pc = "accept" THEN "T" ELSE "F",
-                           c |-> Chain(inst[v].anchor, val[v].p), e |-> W.epoch])
+  /\ out' = Append(out, [v |-> I(v), p |-> val[v].p, r |-> IF val[v].pc = "accept" THEN "T" ELSE "F",
+                           c |-> Chain(inst[I(v)].anchor, val[v].p), e |-> W.epoch])
   /\ val' = [val EXCEPT ![v] = NoVal]
   /\ UNCHANGED <<W, inst, cache, wire, nval, dev, nodev>>
   /\ Track
 
 \* every name a world may use (model-checked worlds and recorded random worlds); a constant set, so that TLC
 \* labels the transitions with the action and its parameters
-NameUniverse == {"RA", "RB", "RAx", "RAf", "RAo", "ROp", "A1", "A1b", "A2", "A3", "X", "B1", "Z",
+NameUniverse == {"RA", "RB", "RAx", "RAf", "RAo", "RAh", "RAd", "ROp", "A1", "A1b", "A2", "A3", "X", "B1", "Z",
                  "R1", "R2", "R3", "R4", "R5", "R6", "C1", "C1b", "C2b", "C2", "C3", "C4", "C5", "C6", "C7", "C8",
                  "P1", "P1r", "A1r", "P2", "P3", "P4", "P5", "P6", "P7", "P8", "P9", "P10"}
+AppUniverse == {"app", "v1", "v2", "v3", "v4"}
 Env == \/ \E v \in Inst, a \in NameUniverse : NewValidator(v, a)
-       \/ \E v \in Inst, p \in NameUniverse : Validate(v, p)
-       \/ \E v \in Inst, kind \in {"yes", "nack", "timeout", "absent"} : FetchReply(v, kind)
+       \/ \E v \in Slots, p \in NameUniverse : Validate(v, p)
+       \/ \E a \in AppUniverse, n \in NameUniverse, kind \in {"yes", "nack", "timeout", "absent"} : FetchReply(a, n, kind)
        \/ \E n \in NameUniverse : Heal(n)
-Internal == \E v \in Inst : CheckSchema(v) \/ UseAnchor(v) \/ UseCache(v) \/ Fetch(v) \/ VerifySig(v) \/ Verdict(v)
+Internal == \E v \in Slots : CheckSchema(v) \/ UseAnchor(v) \/ UseCache(v) \/ Fetch(v) \/ VerifySig(v) \/ Verdict(v)
 Next == Env \/ Internal
-Fair == \A v \in Inst : WF_vars(CheckSchema(v) \/ UseAnchor(v) \/ UseCache(v) \/ Fetch(v) \/ VerifySig(v) \/ Verdict(v))
-                       /\ WF_vars(\E kind \in {"yes", "nack", "timeout", "absent"} : FetchReply(v, kind))
+Fair == /\ \A v \in Slots : WF_vars(CheckSchema(v) \/ UseAnchor(v) \/ UseCache(v) \/ Fetch(v) \/ VerifySig(v) \/ Verdict(v))
+        /\ \A a \in AppUniverse, n \in NameUniverse : WF_vars(\E kind \in {"yes", "nack", "timeout", "absent"} : FetchReply(a, n, kind))
 Spec == Init /\ [][Next]_vars
 FairSpec == Spec /\ Fair
 \* every validation ends (with the network answering or timing out)
-Terminates == \A v \in Inst : (val[v].k = "run") ~> (val[v] = NoVal)
+Terminates == \A v \in Slots : (val[v].k = "run") ~> (val[v] = NoVal)
 
 TypeOK == /\ \A v \in Inst : inst[v].k \in {"none", "ok", "refused"}
-          /\ \A v \in Inst : val[v].k = "run" => val[v].pc \in {"check", "key", "fetching", "verify", "accept", "reject", "diverged"}
+          /\ \A v \in Slots : val[v].k = "run" => val[v].pc \in {"check", "key", "fetching", "verify", "accept", "reject", "diverged"}
           /\ dev \subseteq (Allowed \cup Forced) /\ nodev \subseteq Allowed
-StackBounded == \A v \in Inst : val[v].k = "run" => Len(val[v].stack) <= MaxChain + 1
+StackBounded == \A v \in Slots : val[v].k = "run" => Len(val[v].stack) <= MaxChain + 1
 
 -----------------------------------------------------------------------------
 (* Worlds for model checking: hierarchies of depth 1..MaxD under anchor RA with one deviation at one
@@ -344,9 +355,11 @@ MCWorld(q) ==
       xCert == IF q.dev = "shape"
                THEN [n \in {"X"} |-> LET k == lvl(q.i) IN [key |-> AKey(k), kl |-> baseKl(k), sig |-> baseSig(k), serv |-> "yes"]]
                ELSE [n \in {} |-> 0]
-      anchors == [n \in {"RA", "RB", "RAx", "RAf", "RAo"} |->
+      \* RAh / RAd: "self-signed" with HMAC keyed with its own public key bits / with DigestSha256 - not a self-signature
+      anchors == [n \in {"RA", "RB", "RAx", "RAf", "RAo", "RAh", "RAd"} |->
                     IF n = "RB" THEN [key |-> "kRB", kl |-> "RB", sig |-> "kRB", serv |-> "yes"]
-                    ELSE [key |-> "kRA", kl |-> n, sig |-> IF n = "RAf" THEN "forged" ELSE IF n = "RAo" THEN "kO" ELSE "kRA",
+                    ELSE [key |-> "kRA", kl |-> n, sig |-> IF n = "RAf" THEN "forged" ELSE IF n = "RAo" THEN "kO"
+                                                          ELSE IF n = "RAh" THEN "hmacpub" ELSE IF n = "RAd" THEN "digestkl" ELSE "kRA",
                           serv |-> IF n = "RA" THEN "yes" ELSE "absent"]]
       bCert == [n \in {"B1"} |-> [key |-> "kB1", kl |-> "RB", sig |-> "kRB", serv |-> "yes"]]
       twinDev == q.dev \in {"twinforged", "twinabsent"}
@@ -374,8 +387,8 @@ MCWorld(q) ==
       epoch |-> 0,
       sch |-> q.sch,
       q |-> q,
-      shape |-> [n \in {"RA", "RB", "RAf", "RAo", "RAx", "ROp", "X", "A1", "A1b", "A1r", "A2", "A3", "B1", "P1", "P1r", "P2", "P3", "none"} |->
-                   IF n \in {"RA", "RB", "RAf", "RAo"} THEN "root"
+      shape |-> [n \in {"RA", "RB", "RAf", "RAo", "RAh", "RAd", "RAx", "ROp", "X", "A1", "A1b", "A1r", "A2", "A3", "B1", "P1", "P1r", "P2", "P3", "none"} |->
+                   IF n \in {"RA", "RB", "RAf", "RAo", "RAh", "RAd"} THEN "root"
                    ELSE IF n = "ROp" THEN (IF q.sch = "two" THEN "oproot" ELSE "nil")
                    ELSE IF n = "A1b" THEN (IF twinDev THEN "c1" ELSE "nil")
                    ELSE IF n = "A1r" THEN (IF q.dev = "replaycert" THEN "c1" ELSE "nil")
@@ -413,12 +426,12 @@ WEd == {[MCWorld(q) EXCEPT !.kt = "ed"] : q \in {[sch |-> "strict", d |-> 2, dev
 WTwin == {MCWorld([sch |-> "strict", d |-> 2, dev |-> x, i |-> 1]) : x \in {"twinforged", "twinabsent", "replaypkt", "replaycert"}}
 W2R == {MCWorld([sch |-> s, d |-> 2, dev |-> "none", i |-> 0]) : s \in {"two", "twin"}}
 MCAnchors2(v) == IF v = "v1" THEN {"RA", "ROp", "RAx", "RAf"} ELSE {"RB"}
-MCAnchors(v) == IF v = "v1" THEN {"RA", "RAx", "RAf", "RAo"} ELSE {"RB", "RA"}
+MCAnchors(v) == IF v = "v1" THEN {"RA", "RAx", "RAf", "RAo", "RAh", "RAd"} ELSE {"RB", "RA"}
 MCAnchorsGood(v) == IF v = "v1" THEN {"RA"} ELSE {"RB", "RA"}
 
 \* vacuity witnesses (must be VIOLATED when checked as invariants)
-W_AcceptDeep == ~(\E i \in 1..Len(out) : out[i].r = "T" /\ Len(wire[out[i].v]) >= 2)
-W_CacheHit == ~(\E v \in Inst : Len(out) >= 2 /\ out[1].v = v /\ out[2].v = v /\ out[1].r = "T" /\ out[2].r = "T" /\ Len(wire[v]) = 1)
+W_AcceptDeep == ~(\E i \in 1..Len(out) : out[i].r = "T" /\ Len(wire[AppOf(out[i].v)]) >= 2)
+W_CacheHit == ~(\E v \in Inst : Len(out) >= 2 /\ out[1].v = v /\ out[2].v = v /\ out[1].r = "T" /\ out[2].r = "T" /\ Len(wire[AppOf(v)]) = 1)
 W_Refused == ~(\E v \in Inst : inst[v].k = "refused")
 W_RejectOtherAnchor == ~(\E i \in 1..Len(out) : out[i].r = "F" /\ out[i].p = "P1" /\ inst[out[i].v].anchor = "RB" /\ W.q.dev = "none")
 W_TwoRootsAccept == ~(\E v \in Inst : inst[v].k = "ok" /\ Cardinality(W.roots) = 2)
@@ -426,5 +439,8 @@ W_TwoRootsRefuse == ~(\E v \in Inst : inst[v].k = "refused" /\ Cardinality(W.roo
                                        /\ W.certs[inst[v].anchor].sig = W.certs[inst[v].anchor].key)
 W_HealedAccept == ~(\E i \in 1..Len(out) : \E j \in 1..Len(out) : i < j /\ out[i].p = out[j].p /\ out[i].v = out[j].v
                                                                     /\ out[i].r = "F" /\ out[j].r = "T" /\ out[j].e = 1)
-W_TwoInFlight == ~(\A v \in Inst : val[v].k = "run" /\ val[v].pc = "fetching")
+W_TwoInFlight == ~(\A v \in Slots : val[v].k = "run" /\ val[v].pc = "fetching")
+\* two validations of ONE instance wait for the same certificate, and both end accepted
+W_SameInstanceTwice == ~(\E v \in Inst : Cardinality({i \in 1..Len(out) : out[i].v = v /\ out[i].r = "T"}) >= 2
+                                         /\ Len(wire[AppOf(v)]) >= 2 /\ wire[AppOf(v)][1] = wire[AppOf(v)][2])
 =============================================================================
